@@ -55,6 +55,8 @@ class EvalCtx(object):
         #     print('^^^' + '  '*self.level, node_type, node)
 
         if node_type is AstName:
+            if not hasattr(node, 'flow'):  # a read the extractor never visited
+                return None
             names = node.flow.names_at(np(node))
             name = names.get(node.id)
             if name:
@@ -102,8 +104,9 @@ class EvalCtx(object):
         cname = None
         if node_type is AstName:
             ast_name = node  # type: AstName # type: ignore[assignment]
-            names = ast_name.flow.names_at(np(ast_name))  # type: ignore[attr-defined]
-            cname = names.get(ast_name.id)
+            if hasattr(ast_name, 'flow'):
+                names = ast_name.flow.names_at(np(ast_name))  # type: ignore[attr-defined]
+                cname = names.get(ast_name.id)
         elif node_type is MultiName:
             mname = node  # type: MultiName # type: ignore[assignment]
             names = mname.valid_names
